@@ -53,4 +53,20 @@ PROPS = {
             "forward/backwards index agreement is checked by correspondence + oracle only (not yet a theorem)",
         ],
     ),
+    "C18": dict(
+        coq_targets=["Props/C18.vo", "Oracle/C18.vo"],
+        harness=[dict(pkg="h_prims", bin="c18", cases={"quick": 2500, "thorough": 40000},
+                      checkers=["corr", "oracle", "known"])],
+        allowed_axioms=[],
+        trusted_base=[
+            "nom combinators (the RouteUri model follows the grammar they implement); percent_encoding crate (algorithm modelled, every byte value swept)",
+            "strings as UTF-8 byte lists; the automata branch only on ASCII so bytes = chars",
+            "no hook needed (swimos_route public API)",
+        ],
+        assumptions=[
+            "decode_utf8_lossy is not modelled: cases whose decoded parts are not valid UTF-8 compare match/no-match only",
+            "C18_apply_unapply_partial: the RouteUri parse of the produced route string into (scheme, path) is tied by correspondence only",
+            "known finding C18-F1 (patterns outside the URI grammar) is excluded from the round-trip oracle by the decidable predicate known_not_uri_clean",
+        ],
+    ),
 }
